@@ -17,6 +17,9 @@ def grouped_sum(column, group_id):
     fail_if_dtype_not_numeric_or_boolean(column, agg_func="grouped_sum")
     if column.dtype == bool:
         column = column.astype(int)
+    elif numpy.issubdtype(column.dtype, numpy.integer):
+        # Sum in 64 bits: totals of narrow integer columns (int8, int16, ...) overflow.
+        column = column.astype(numpy.int64)
     out_on_hh = npg.aggregate(group_id, column, func="sum", fill_value=0)
 
     # Expand to individual level
@@ -124,6 +127,9 @@ def sum_by_p_id(column, p_id_to_aggregate_by, p_id_to_store_by):
 
     if column.dtype in ["bool"]:
         column = column.astype(int)
+    elif numpy.issubdtype(column.dtype, numpy.integer):
+        # Sum in 64 bits: totals of narrow integer columns (int8, int16, ...) overflow.
+        column = column.astype(numpy.int64)
     out = numpy.zeros_like(p_id_to_store_by, dtype=column.dtype)
 
     map_p_id_to_position = {p_id: iloc for iloc, p_id in enumerate(p_id_to_store_by)}
